@@ -4114,8 +4114,9 @@ namespace detail {
                                 ++column_;
                                 break;
                             }
-                            default:
-                                break;
+                            default: // after an argument only ',' or ')' can follow
+                                ec = jmespath_errc::expected_rparen;
+                                return jmespath_expression{};
                         }
                         break;
 
